@@ -357,7 +357,15 @@ def standard_run(prop, modules, gen_cases, tier, seed, replay, assumptions, rule
     drv_ok, drv_log = build_driver()
     zsrc = os.path.join(VERIF, 'harness', 'zdrv.c')
     zflags = ['-I' + os.path.join(VERIF, 'harness')]
-    zdrv = B.build_exe(zsrc, 'zdrv', variant=variant, extra_flags=zflags)
+    try:
+        zdrv = B.build_exe(zsrc, 'zdrv', variant=variant, extra_flags=zflags)
+    except B.BuildFailed as e:
+        # the harness includes internal headers: a change to a structure it looks into can stop it building.  The correspondence can
+        # then not be carried out; what the proof side found (e.g. a broken footprint obligation) is still reported
+        if not replay:
+            shutil.rmtree(os.path.join(VERIF, 'replays', prop), ignore_errors=True)
+        return finish(prop, tier, seed, t0, proof, [], ['harness does not build against this tree: ' + str(e)], load_known(prop), rule, [], {},
+                      assumptions, nontrivial=nontrivial, classify=classify, extra_cov=extra_cov)
     work = os.path.join(VERIF, '.cache', 'work-%s-%d' % (prop, os.getpid()))
     shutil.rmtree(work, ignore_errors=True)
     os.makedirs(work)
